@@ -10,6 +10,7 @@ import (
 	"sort"
 	"strings"
 	"sync"
+	"sync/atomic"
 	"testing"
 	"time"
 
@@ -245,7 +246,7 @@ func TestVerifC02(t *testing.T) {
 		})
 		// process death at every hook point inside VCompress (arena rebuilt on new files,
 		// snapshot phases), from every kind of persistent pre-state
-		ctx.Group("compress", ctx.N(32, 400), func(cs *vkit.Case) {
+		ctx.Group("compress", ctx.N(32, 200), func(cs *vkit.Case) {
 			defer verifhook.Reset()
 			x := vexec.NewExec(cs, cs.SubDir("data"))
 			c02Live = x
@@ -347,7 +348,7 @@ func TestVerifC02(t *testing.T) {
 			ctx.Eval(1)
 			ctx.Distinct(fmt.Sprintf("compress/%s/%s/pre%d/%s", metric, target, pre, strings.Join(vexec.SortedKeys(seen), ",")))
 		})
-		ctx.Group("crash", ctx.N(240, 4000), func(cs *vkit.Case) {
+		ctx.Group("crash", ctx.N(240, 1200), func(cs *vkit.Case) {
 			defer verifhook.Reset()
 			x := vexec.NewExec(cs, cs.SubDir("data"))
 			c02Live = x
@@ -373,7 +374,41 @@ func TestVerifC02(t *testing.T) {
 			salt := uint32(cs.R.Intn(1 << 30))
 			hit := uint32(0)
 			pointsSeen := map[string]bool{}
+			// VDeleteIndex removes the arena directory in a goroutine of its own while the
+			// operation goes on to snapshot and truncate the log. A copy of the directory
+			// taken from that goroutine would span those file operations and could combine
+			// file states that never existed together. Images at its points are therefore
+			// only taken while the operation itself is parked at snap.begin (it waits there,
+			// bounded, until the removal goroutine has passed its last point).
+			var dropActive, mainParked atomic.Bool
+			var removeHandled atomic.Int64
 			verifhook.SetGlobal(func(name string, _ any) {
+				async := strings.HasPrefix(name, "op.VDeleteIndex.remove") || name == "op.VDeleteIndex.before_remove"
+				switch {
+				case name == "op.VDeleteIndex.applied":
+					dropActive.Store(true)
+				case name == "snap.begin" && dropActive.Load():
+					base := removeHandled.Load()
+					mainParked.Store(true)
+					for i := 0; i < 5000 && removeHandled.Load() == base; i++ {
+						time.Sleep(time.Millisecond)
+					}
+					mainParked.Store(false)
+					dropActive.Store(false)
+				case async:
+					for i := 0; i < 1000 && dropActive.Load() && !mainParked.Load(); i++ {
+						time.Sleep(time.Millisecond)
+					}
+					if !mainParked.Load() {
+						if name == "op.VDeleteIndex.remove_done" {
+							removeHandled.Add(1)
+						}
+						return
+					}
+					if name == "op.VDeleteIndex.remove_done" {
+						defer removeHandled.Add(1)
+					}
+				}
 				mu.Lock()
 				defer mu.Unlock()
 				tornLo := int64(-1)
@@ -482,7 +517,7 @@ func TestVerifC02(t *testing.T) {
 						for o := im.tornLo + 1; o < size; o++ {
 							offs = append(offs, o)
 						}
-						max := ctx.N(16, 300)
+						max := ctx.N(16, 48)
 						if len(offs) > max { // deterministic thinning, frame boundaries +-1 always kept
 							keep := map[int64]bool{}
 							for _, e := range c02FrameEnds(imgAof) {
